@@ -117,9 +117,9 @@ func refShowFrom(fs []fframe, rx *regexp.Regexp) outcome {
 	return outcome{}
 }
 
-var fnNames = []string{"f0", "f1", "f2", "f3", "main", "alloc"}
+var fnNames = []string{"f0", "f1", "f2", "f3", "main", "alloc", "xf3", "f3x", "main.run", "domain"}
 var fileNames = []string{"file0.go", "file1.go", "dir/f2.cc"}
-var namePats = []string{"f0", "f1|f2", "file1", "binA", "^f3$", "zzz", "bin", "f", "main$", "\\.cc", "[0-1]$", "lib/"}
+var namePats = []string{"f0", "f1|f2", "file1", "binA", "^f3$", "zzz", "bin", "f", "main$", "\\.cc", "[0-1]$", "lib/", "^main$", "^main\\.run$", "\\Af0\\z", "(?i)F1|zz", "^f3"}
 
 func genProfile(r *rand.Rand) *profile.Profile {
 	m1 := &profile.Mapping{ID: 1, Start: 0x1000, Limit: 0x2000, File: "/bin/binA"}
@@ -528,7 +528,7 @@ type tagFilter struct {
 func mkTagFilter(r *rand.Rand, ls labelSpec) tagFilter {
 	switch r.Intn(6) {
 	case 0: // regexps on key:value, comma = AND
-		parts := []string{[]string{"aa", "k1:a", "b$", "k2", "zz", "^k1:ab$"}[r.Intn(6)]}
+		parts := []string{[]string{"aa", "k1:a", "b$", "k2", "zz", "^k1:ab$", "(?i)k1:aa"}[r.Intn(7)]}
 		if r.Intn(3) == 0 {
 			parts = append(parts, []string{"ab", "k2:b"}[r.Intn(2)])
 		}
@@ -551,9 +551,9 @@ func mkTagFilter(r *rand.Rand, ls labelSpec) tagFilter {
 		}}
 	case 1: // key=regexps, comma = OR
 		key := []string{"k1", "k2", "nokey"}[r.Intn(3)]
-		parts := []string{[]string{"aa", "^a", "b"}[r.Intn(3)]}
+		parts := []string{[]string{"aa", "^a", "b", "(?i)aa", "(?i)^b$", "(?i:a)a"}[r.Intn(6)]}
 		if r.Intn(2) == 0 {
-			parts = append(parts, "ab")
+			parts = append(parts, []string{"ab", "ab", "^b"}[r.Intn(3)])
 		}
 		return tagFilter{key + "=" + strings.Join(parts, ","), func(s *profile.Sample) bool {
 			for _, pt := range parts {
@@ -675,7 +675,7 @@ func runTags(c *harness.Ctx) harness.Result {
 		for _, k := range []string{"k1", "k2"} {
 			if r.Intn(3) == 0 {
 				for j, n := 0, 1+r.Intn(2); j < n; j++ {
-					s.Label[k] = append(s.Label[k], []string{"aa", "ab", "b"}[r.Intn(3)])
+					s.Label[k] = append(s.Label[k], []string{"aa", "ab", "b", "AB", "B"}[r.Intn(5)])
 				}
 			}
 		}
@@ -819,7 +819,7 @@ func init() {
 	harness.Register(&harness.Check{
 		ID:    "C06",
 		Level: "exploration",
-		Rule: "part names: profiles over small name/file/binary alphabets with shared and inlined locations, unsymbolized frames and empty stacks, function and location ids distinct but neither dense nor ordered (values just above the table size included); every sample carries a unique id label so outcomes are matched per sample; random focus/ignore/hide/show/show_from expressions (12 patterns: literals, alternation, anchors, classes, path fragments), alone and combined, through the API (FilterSamplesByName + ShowFrom) and through the driver (-proto with the options, relative_percentages on/off; and -traces at functions/files/lines/filefunctions granularity with and without noinlines, where the set of surviving samples is read from their id labels). part interactive: 'proto F.. -I.. > file' typed into a fresh interactive session (1-4 focus words and -ignore words in any order) must filter like focus=F1|F2 ignore=I1|I2, and an argument-free command after it must see every sample again; half of the sessions first run a report under a label filter (taghide / tagshow / tagfocus) that is switched off again. part partition: focus=R plus ignore=R must contain every sample exactly once and totals must add up (also on -top totals). part tags: string labels and numeric labels in bytes/kb, ms/us, unitless and key-inferred units against regexp lists (AND without key, OR with key) and ranges N, N:, :N, N:M with unit conversion, optionally keyed, plus tagshow/taghide, through the driver. " +
+		Rule: "part names: profiles over small name/file/binary alphabets with shared and inlined locations, unsymbolized frames and empty stacks, function and location ids distinct but neither dense nor ordered (values just above the table size included); every sample carries a unique id label so outcomes are matched per sample; random focus/ignore/hide/show/show_from expressions (17 patterns: literals, alternation, anchors, classes, path fragments), alone and combined, through the API (FilterSamplesByName + ShowFrom) and through the driver (-proto with the options, relative_percentages on/off; and -traces at functions/files/lines/filefunctions granularity with and without noinlines, where the set of surviving samples is read from their id labels). part interactive: 'proto F.. -I.. > file' typed into a fresh interactive session (1-4 focus words and -ignore words in any order) must filter like focus=F1|F2 ignore=I1|I2, and an argument-free command after it must see every sample again; half of the sessions first run a report under a label filter (taghide / tagshow / tagfocus) that is switched off again. part partition: focus=R plus ignore=R must contain every sample exactly once and totals must add up (also on -top totals). part tags: string labels and numeric labels in bytes/kb, ms/us, unitless and key-inferred units against regexp lists (AND without key, OR with key) and ranges N, N:, :N, N:M with unit conversion, optionally keyed, plus tagshow/taghide, through the driver. " +
 			"oracle: reference filter written from doc/README.md over the frames view; values, labels and frame order must be retained. non-trivial = at least one decided sample / a tag filter present; distinct = (filters, sample counts)",
 		Assumptions: []string{"undecided by the statement and accepted either way: empty-stack samples under hide/show, unsymbolized frames under show", "numeric label units are consistent per key within a profile", "a unitless range compares raw values of labels without a known unit"},
 		Parts: []harness.Part{
